@@ -324,6 +324,10 @@ def check_atom(r, e, fam, env, parsed, names, kinds):
             bad = "raises:" + got[4:]
         elif tis == "signed":
             continue
+        elif got == "UNKNOWN" and smt.needed_solver(e, env):
+            # Z3 needed a solver call for this atom; ISLa gives it a 500 ms budget, so UNKNOWN is Z3's own (load-dependent) answer
+            r.caps["isla_unknown_where_z3_needs_a_solver_call"] += 1
+            continue
         elif got != exp:
             bad = f"expected-{exp}-got-{got}"
         if bad:
